@@ -771,7 +771,16 @@ class Interp:
                 shared[t.id] = v  # module-level state of the interpreted world: later calls see the new binding
             self.env[t.id] = v
         elif isinstance(t, ast.Attribute) and isinstance(t.value, ast.Name) and t.value.id == "self":
-            self.selfattrs[self._mangle(t.attr)] = v
+            setters = self.externals.get("__setters__")
+            inst_ = self.env.get("self")
+            cname_ = getattr(getattr(inst_, "cls", None), "name", None) or self.cls_name
+            snode = (setters(cname_) if callable(setters) and cname_ else {}).get(t.attr)
+            if snode is not None and not getattr(self, "_in_setter", None) == t.attr:
+                sub = Interp(self.env, self.selfattrs, self.region, self.methods, self.cls_name, externals=self.externals)
+                sub._in_setter = t.attr  # inside the setter `self.<name> = ...` cannot occur again without recursion in python either
+                sub.call_function(snode, [v], {}, bind_self=True)
+            else:
+                self.selfattrs[self._mangle(t.attr)] = v
         elif isinstance(t, ast.Attribute) and isinstance(t.value, ast.Name) and t.value.id not in self.env and t.value.id in (self.externals.get("__class_state__") or {}):
             self.externals["__class_state__"][t.value.id][t.attr] = v
         elif isinstance(t, (ast.Tuple, ast.List)):
@@ -1582,6 +1591,18 @@ class Interp:
             raise Undecided("getattr")
         if name == "bool":
             return self.truth(ev(args[0]))
+        if name == "reduce" and len(args) >= 2 and (A.dotted(args[0]) or "") in ("operator.add", "add", "operator.mul", "mul", "operator.or_", "operator.and_"):
+            # functools.reduce: with ONE element the element itself is returned (no new object), exactly as in python
+            seq = list(self.iterable(ev(args[1]), "reduce"))
+            if len(args) > 2:
+                seq = [ev(args[2])] + seq
+            if not seq:
+                raise _PyRaise("TypeError")
+            op_ = {"add": ast.Add(), "mul": ast.Mult(), "or_": ast.BitOr(), "and_": ast.BitAnd()}[(A.dotted(args[0]) or "").split(".")[-1]]
+            acc = seq[0]
+            for x_ in seq[1:]:
+                acc = self.binop(op_, acc, x_)
+            return acc
         if name == "round" and isinstance(f, ast.Name) and "round" not in self.env and args:
             v = to_poly(ev(args[0]))
             nd_ = to_poly(ev(args[1])) if len(args) > 1 else None
